@@ -247,6 +247,46 @@ fn run_line(line: &str) -> String {{
     let some = Rc::new(Cell::new(0usize));
     let total = Rc::new(Cell::new(0usize));
     let (s2, t2) = (some.clone(), total.clone());
+    if flavour == 6 || flavour == 7 {{
+        // 6: the same input parsed by four threads at the same time (the emitted statics are shared);
+        // 7: the same input parsed 70 000 times in a row on this thread.  All answers must be one answer.
+        let one = move |kinds: Vec<usize>| -> String {{
+            let some = Rc::new(Cell::new(0usize));
+            let total = Rc::new(Cell::new(0usize));
+            let r = std::panic::catch_unwind(std::panic::AssertUnwindSafe(|| gen::parse(It {{ kinds, i: 0, scheme, some: some.clone(), total, late: 0, ended: false }})));
+            match r {{
+                Ok(r) => render(r, some.get().to_string()),
+                Err(_) => "PANIC in one of the calls".to_string(),
+            }}
+        }};
+        let first = one(kinds.clone());
+        if flavour == 6 {{
+            let handles: Vec<_> = (0..3)
+                .map(|_| {{
+                    let k = kinds.clone();
+                    std::thread::Builder::new().stack_size(256 << 20).spawn(move || one(k)).unwrap()
+                }})
+                .collect();
+            let mine = one(kinds.clone());
+            for h in handles {{
+                let other = h.join().unwrap_or_else(|_| "PANIC in a parsing thread".to_string());
+                if other != first {{
+                    return format!("DIFF concurrent calls disagree: {{}} || {{}}", first, other);
+                }}
+            }}
+            if mine != first {{
+                return format!("DIFF concurrent calls disagree: {{}} || {{}}", first, mine);
+            }}
+        }} else {{
+            for n in 2..=70_000usize {{
+                let again = one(kinds.clone());
+                if again != first {{
+                    return format!("DIFF call number {{}} disagrees with the first: {{}} || {{}}", n, first, again);
+                }}
+            }}
+        }}
+        return first;
+    }}
     let nested = Rc::new(std::cell::RefCell::new(String::new()));
     let nested2 = nested.clone();
     let r = std::panic::catch_unwind(std::panic::AssertUnwindSafe(move || -> Result<gen::{start}, Option<gen::{tok}>> {{
